@@ -98,6 +98,23 @@ Next ==
             IN /\ (f # {} => PrintT("FAIL|" \o ToString(l) \o "|" \o ToString(f)))
                /\ oracle' = bd
                /\ valid' = IF e.shape = "ucinewgame" THEN FALSE ELSE TRUE
+       [] e.op = "api" ->
+            \* Engine.Reset / Move / TakeBack called directly; a call that must fail changes nothing
+            LET can == CASE e.kind = "start" -> TRUE
+                         [] e.kind = "reset" -> e.bad = 0
+                         [] e.kind = "move" -> e.bad = 0 /\ B!CanPush(oracle, MoveOf(e.arg))
+                         [] e.kind = "takeback" -> B!CanPop(oracle)
+                bd == IF ~can THEN oracle
+                      ELSE CASE e.kind = "start" -> LET d == Decode(StartFen) IN B!NewBoard(d.pos, d.np, d.fm)
+                             [] e.kind = "reset" -> LET d == Decode(e.arg) IN B!NewBoard(d.pos, d.np, d.fm)
+                             [] e.kind = "move" -> B!PushOp(oracle, MoveOf(e.arg))
+                             [] e.kind = "takeback" -> B!PopOp(oracle)
+                f == Chk("c14.engine-call-outcome", (e.err = 0) = can)
+                     \cup JudgeState(e, bd)
+                     \cup (IF e.kind = "takeback" /\ can THEN Chk("c14.engine-takeback-result", e.state.out = 1) ELSE {})
+            IN /\ (f # {} => PrintT("FAIL|" \o ToString(l) \o "|" \o ToString(f)))
+               /\ oracle' = bd
+               /\ valid' = TRUE
        [] e.op = "readout" ->
             /\ LET f == JudgeReadout(e) IN f # {} => PrintT("FAIL|" \o ToString(l) \o "|" \o ToString(f))
             /\ UNCHANGED <<oracle, valid>>
